@@ -274,7 +274,9 @@ func (bi *BasmInstance) assembler2NewBondMachine() error {
 				}
 			}
 
-			myArch.O = uint8(Needed_bits(romCodeContrib + len(data)))
+			if cp.GetMeta("romsize") == "" {
+				myArch.O = uint8(Needed_bits(romCodeContrib + len(data)))
+			}
 			myMachine.Data.Vars = data
 
 		}
@@ -639,7 +641,10 @@ outer:
 	romCodeContrib := 0
 	if cp.GetMeta("romsize") != "" {
 		if val, err := strconv.Atoi(cp.GetMeta("romsize")); err == nil {
-			romCodeContrib = 2 ^ val
+			// the requested depth is 2^val cells; what has to fit is the code (and, below, the data)
+			if romCode != "" {
+				romCodeContrib = len(bi.sections[romCode].sectionBody.Lines)
+			}
 			myArch.O = uint8(val)
 			if bi.debug {
 				fmt.Println(tabs + " - " + green("romsize (cp config): ") + yellow(cp.GetMeta("romsize")))
@@ -665,7 +670,9 @@ outer:
 
 	if cp.GetMeta("ramsize") != "" {
 		if val, err := strconv.Atoi(cp.GetMeta("ramsize")); err == nil {
-			ramCodeContrib = 2 ^ val
+			if ramCode != "" {
+				ramCodeContrib = len(bi.sections[ramCode].sectionBody.Lines)
+			}
 			myArch.L = uint8(val)
 			if bi.debug {
 				fmt.Println(tabs + " - " + green("ramsize (cp config): ") + yellow(cp.GetMeta("ramsize")))
@@ -730,7 +737,14 @@ outer:
 			}
 		}
 
-		myArch.O = uint8(Needed_bits(romCodeContrib + len(data)))
+		if cp.GetMeta("romsize") != "" {
+			// a requested ROM depth is kept: code and data must fit it
+			if romCodeContrib+len(data) > 1<<myArch.O {
+				return nil, errors.New("code and data do not fit the requested romsize")
+			}
+		} else {
+			myArch.O = uint8(Needed_bits(romCodeContrib + len(data)))
+		}
 	}
 
 	if ramData != "" {
@@ -753,7 +767,13 @@ outer:
 			}
 		}
 
-		myArch.L = uint8(Needed_bits(ramCodeContrib + len(data)))
+		if cp.GetMeta("ramsize") != "" {
+			if ramCodeContrib+len(data) > 1<<myArch.L {
+				return nil, errors.New("code and data do not fit the requested ramsize")
+			}
+		} else {
+			myArch.L = uint8(Needed_bits(ramCodeContrib + len(data)))
+		}
 	}
 
 	return myMachine, nil
